@@ -18,22 +18,39 @@ func VerifC05_SerialPause() {
 	r.yieldInHandler = true
 	r.start()
 	pauserDone := false
+	done := make(chan struct{})
+	again := verifrt.Choice("pause-again-at-once", 2) == 1
 	go func() {
+		verifrt.Jitter(200)
 		verifrt.Yield()
 		r.e.Pause()
 		// Pause has returned: the engine must be quiescent
 		verifrt.Assert(!r.inHandler, "no-handler-executing-once-pause-has-returned")
 		h0 := len(r.handled)
 		verifrt.Yield()
+		verifrt.Jitter(200)
 		verifrt.Yield()
 		verifrt.Assert(!r.inHandler && len(r.handled) == h0, "no-handler-runs-between-pause-and-continue")
 		r.e.Continue()
+		if again {
+			// Continue immediately followed by another Pause: the runner woken by
+			// Continue must see the second pause
+			r.e.Pause()
+			verifrt.Assert(!r.inHandler, "no-handler-executing-once-the-second-pause-has-returned")
+			h1 := len(r.handled)
+			verifrt.Yield()
+			verifrt.Jitter(200)
+			verifrt.Yield()
+			verifrt.Assert(!r.inHandler && len(r.handled) == h1, "no-handler-runs-during-the-second-pause")
+			r.e.Continue()
+			verifrt.Cover("paused-twice")
+		}
 		pauserDone = true
+		close(done)
 	}()
+	verifrt.Jitter(200)
 	verifrt.Assert(r.e.Run() == nil, "run")
-	for i := 0; i < 50 && !pauserDone; i++ {
-		verifrt.Yield()
-	}
+	<-done // wait for the pauser (blocking: not a scheduling choice)
 	if pauserDone {
 		// a pause that lands after the run finished leaves nothing to do
 		verifrt.Cover("pauser-finished")
@@ -85,6 +102,7 @@ func VerifC05_ParallelPause() {
 		r.sched(i)
 	}
 	pauserDone := false
+	done := make(chan struct{})
 	go func() {
 		verifrt.Yield()
 		r.e.Pause()
@@ -99,11 +117,10 @@ func VerifC05_ParallelPause() {
 		r.mu.Unlock()
 		r.e.Continue()
 		pauserDone = true
+		close(done)
 	}()
 	verifrt.Assert(r.e.Run() == nil, "run")
-	for i := 0; i < 50 && !pauserDone; i++ {
-		verifrt.Yield()
-	}
+	<-done // wait for the pauser (blocking: not a scheduling choice)
 	if pauserDone {
 		verifrt.Cover("pauser-finished")
 	}
